@@ -767,10 +767,6 @@ class Sweep(TEBDContract):
     def requires(self, a, case):
         return {}
 
-    # ---- body proof
-    def inputs_post(self, cx, a):
-        pass
-
     def ensures(self, a, r, cx, case):
         ref = a.self
         f, p = cx.fields(ref), cx.pre(ref)
@@ -1015,13 +1011,10 @@ class ChooseTimeStep(TEBDContract):
     target = f"{TEBDC}.choose_time_step"
     floor = 2
 
-    def inputs(self, cx, case):
-        return dict(self=new_tebd(cx), tol=cx.Real("tol"), T=cx.Real("T"), order=cx.ghost.setdefault("order", 2))
-
     def cases(self):
         return [NS(name=f"order={o}", order=o) for o in (1, 2, 4)]
 
-    def inputs(self, cx, case):  # noqa: F811
+    def inputs(self, cx, case):
         ref = new_tebd(cx)
         a = NS(dict(self=ref, tol=cx.Real("tol"), T=cx.Real("T"), order=case.order))
         for c in self.reqs(cx, a).values():
@@ -1109,7 +1102,7 @@ class ComputeSweepDtTol(TEBDContract):
         return {"exactly-one-of-(dt,tol)-set": Not(self.must_raise(p, a)),
                 "returns-the-stored-step": is_num(r) and is_num(f["_dt"]) and Z(R(r)) == Z(R(f["_dt"])),
                 "step==dt-if-given-else-chosen-for-the-span-T-t": is_num(f["_dt"]) and Z(R(f["_dt"])) == Z(R(want)),
-                "frame: time, error, defaults": And(f["t"] == p["t"], f["_err"] == p["_err"]) if True else True,
+                "frame: time, error": And(f["t"] == p["t"], f["_err"] == p["_err"]),
                 "frame: defaults-untouched": f["dt"] is p["dt"] and f["tol"] is p["tol"]}
 
     def apply(self, cx, a, node, case=None):
